@@ -1,4 +1,5 @@
 import FlVerif.Gen.CodeWave5YAct
+import FlVerif.Spec.Activation
 import FlVerif.Lemmas.CodeFllExportStr
 import FlVerif.Lemmas.CodeTermParse
 
@@ -310,5 +311,27 @@ theorem configure_parameters_lowest (cls : String) (rdi : String → Option Int)
 theorem comparator_symbols_are_words :
     symbols = ["<", "<=", "==", "!=", ">=", ">"] ∧ ∀ s ∈ symbols, intTokOf s = .w s := by
   decide +kernel
+
+/-- `Threshold.Comparator(text)` succeeds exactly for the symbols `Spec.Activation.Comparator.ofSymbol` knows (whose
+    operators are tied by `C08.code_comparator`) and returns the member with that value -/
+theorem comparatorOfText_spec (s : String) :
+    match Spec.Activation.Comparator.ofSymbol s with
+    | some _ => comparatorOfText s = .ok s
+    | none => comparatorOfText s = .error .value := by
+  have hs : symbols = ["<", "<=", "==", "!=", ">=", ">"] := comparator_symbols_are_words.1
+  have hmem : (Spec.Activation.Comparator.ofSymbol s).isSome = decide (s ∈ ["<", "<=", "==", "!=", ">=", ">"]) := by
+    unfold Spec.Activation.Comparator.ofSymbol
+    split <;> simp_all
+  unfold comparatorOfText
+  rw [hs]
+  cases h : Spec.Activation.Comparator.ofSymbol s with
+  | none =>
+    rw [h] at hmem
+    have : s ∉ ["<", "<=", "==", "!=", ">=", ">"] := by simpa using hmem.symm
+    simp only [this, if_false]
+  | some c =>
+    rw [h] at hmem
+    have : s ∈ ["<", "<=", "==", "!=", ">=", ">"] := by simpa using hmem.symm
+    simp only [this, if_true]
 
 end Py.W5Y
